@@ -1,6 +1,6 @@
 (* Dispatch.v — single entry point of the extracted model. *)
 From Coq Require Import ZArith List.
-From PV Require Import extract.Cases at4.Flat4 at5.Flat5 extract.Doms spec.FlatSpec extract.RxCases extract.ApiCases extract.ClientCases base.Flt extract.DrainCases.
+From PV Require Import extract.Cases at4.Flat4 at5.Flat5 extract.Doms spec.FlatSpec extract.RxCases extract.ApiCases extract.ClientCases base.Flt extract.DrainCases extract.TdCases.
 Import ListNotations.
 Open Scope Z_scope.
 
@@ -15,6 +15,7 @@ Definition run_case (l : list Z) : list Z :=
   | 7 :: args => run_search args
   | 8 :: args => run_flt args
   | 9 :: args => run_drain args
+  | 10 :: args => run_td args
   | 20 :: args => run_enc4 args
   | 21 :: args => run_dec4 args
   | 22 :: args => run_dom4 args
